@@ -154,7 +154,8 @@ def get_funcinfo(pyfunc, check=True):
       node = _find_lambda(tree, code.co_firstlineno)
     if node is None:
       raise CorrespondenceError(f'cannot locate {qualname} in {filename}')
-  if check and code.co_name != '<lambda>':
+  in_repo = os.path.realpath(filename).startswith(os.path.realpath(REPO) + os.sep)
+  if check and in_repo and code.co_name != '<lambda>':
     disk = _find_code(modcode, qualname, code.co_firstlineno)
     if disk is None:
       raise CorrespondenceError(
